@@ -1,7 +1,7 @@
 (* C07 -- every connection attempt yields a well-formed, finite event sequence.  Statements only. *)
-From Coq Require Import List NArith Bool.
+From Coq Require Import List NArith ZArith Bool.
 From Model Require Import Conn.
-From Proofs Require Import ReadyFacts ShapeFacts RunFacts.
+From Proofs Require Import ReadyFacts ShapeFacts RunFacts TimeoutEnds.
 Import ListNotations.
 
 (* for every configuration, every application strategy (reacting to everything it has observed with sends, closes or by
@@ -58,3 +58,24 @@ Proof.
       * inversion Fq as [|? ? _ F1]; subst. inversion F1 as [|? ? _ F2]; subst. inversion F2 as [|? ? [Q _] _]; subst. discriminate.
   - apply (RsOnce [EvConnecting; EvConnected] None false [EvPoll; EvText []; EvDisconnected true]); repeat constructor.
 Qed.
+
+(* "iteration always terminates once ... a timeout has fired": the check instant (any wake-up of the selector, with or
+   without data) at which an armed deadline has passed is the last iteration of the loop -- it is left through finish
+   (C13_finally: Disconnected unless the application abandons, socket and selector closed), whatever the application does.
+   The close timeout counts from the moment the client's Close went out (the state after housekeeping still says when; a
+   close() at session time 0 included), the ping timeout from the last Pong. *)
+Theorem C07_close_timeout_ends_the_iteration : forall cf app dt rest c v s, k_closed c = false -> k_ready c = true ->
+  c_close_timeout cf = Some v -> v <> 0%Z ->
+  k_sent_close_time (fst (regular cf app (advance c dt))) = Some s -> (s + v <= session_time (advance c dt))%Z ->
+  exists c' st, st <> SOk /\ loop cf app (StTimeout dt :: rest) c = finish app c' st /\
+                forall r, loop cf app (StRead dt r :: rest) c = finish app c' st.
+Proof. exact Proofs.TimeoutEnds.close_timeout_ends_the_loop. Qed.
+Print Assumptions C07_close_timeout_ends_the_iteration.
+
+Theorem C07_ping_timeout_ends_the_iteration : forall cf app dt rest c v, k_closed c = false -> k_ready c = true ->
+  c_ping_timeout cf = Some v -> v <> 0%Z ->
+  (session_time (advance c dt) - k_last_pong c > v)%Z ->
+  exists c' st, st <> SOk /\ loop cf app (StTimeout dt :: rest) c = finish app c' st /\
+                forall r, loop cf app (StRead dt r :: rest) c = finish app c' st.
+Proof. exact Proofs.TimeoutEnds.ping_timeout_ends_the_loop. Qed.
+Print Assumptions C07_ping_timeout_ends_the_iteration.
